@@ -367,7 +367,7 @@ func (v *verifier) verifyImage(img imageRec, deep bool) (res *imgResult) {
 	defer n.Close()
 	ctx, cancel := context.WithCancel(context.Background())
 	defer cancel()
-	mgr := replica.NewWriteAheadLogManager(ctx, walConfig(), selfNode, n.Engine, nil, nil)
+	mgr := replica.NewWriteAheadLogManager(ctx, walConfig(), selfNode, n.Engine, nil, noCluster{})
 	defer mgr.Close()
 	if err := mgr.Recovery(); err != nil {
 		res.fail("C07/recovery-fails/wal", "WriteAheadLogManager.Recovery: %v", err)
